@@ -564,22 +564,31 @@ func ccRun(s *ccStation, c ccCase) (res ccRes) {
 	}
 	res.Stream = hex.EncodeToString(stream)
 
-	cli, srv := net.Pipe()
-	sc := &ccConn{Conn: srv, objs: objs, sig: make(chan struct{}, 1)}
-	defer cli.Close()
-	// the client reads (and drops) whatever the station sends: a pipe write of the station must not block
-	go func() {
-		buf := make([]byte, 4096)
-		for {
-			if _, err := cli.Read(buf); err != nil {
-				return
-			}
-		}
-	}()
-	hdone := make(chan struct{})
+	// one connection at a time; a case may open several, one after the other (accept ... close, accept ... close)
+	var cli net.Conn
+	var sc *ccConn
+	var hdone chan struct{}
 	accepted := false
 	sent := 0
-	tunnelSeen := make([]bool, len(c.Regs))
+	newConn := func() {
+		var srv net.Conn
+		cli, srv = net.Pipe()
+		sc = &ccConn{Conn: srv, objs: objs, sig: make(chan struct{}, 1)}
+		hdone = make(chan struct{})
+		sent = 0
+		// the client reads (and drops) whatever the station sends: a pipe write of the station must not block
+		go func(c net.Conn) {
+			buf := make([]byte, 4096)
+			for {
+				if _, err := c.Read(buf); err != nil {
+					return
+				}
+			}
+		}(cli)
+	}
+	newConn()
+	defer func() { cli.Close() }()
+	tunnelSeen := make([]int32, len(c.Regs))
 
 	view := func() []int {
 		out := []int{}
@@ -629,8 +638,8 @@ func ccRun(s *ccStation, c ccCase) (res ccRes) {
 		deadline := time.After(wait)
 		for {
 			for i, cv := range covs {
-				if cv != nil && !tunnelSeen[i] && atomic.LoadInt32(&cv.conns) > 0 {
-					tunnelSeen[i] = true
+				if cv != nil && atomic.LoadInt32(&cv.conns) > tunnelSeen[i] {
+					tunnelSeen[i]++
 					return i
 				}
 			}
@@ -695,11 +704,11 @@ func ccRun(s *ccStation, c ccCase) (res ccRes) {
 				break
 			}
 			accepted = true
-			go func() {
+			go func(sc *ccConn, hdone chan struct{}) {
 				defer close(hdone)
 				defer func() { recover() }()
 				s.cm.handleNewTCPConn(s.rm, sc, phantom)
-			}()
+			}(sc, hdone)
 			if !settle(5 * time.Second) {
 				sr.Stalled = true
 			}
@@ -733,10 +742,19 @@ func ccRun(s *ccStation, c ccCase) (res ccRes) {
 			}
 		case "close":
 			cli.Close()
-			select {
-			case <-hdone:
-			case <-time.After(200 * time.Millisecond):
+			if accepted {
+				select {
+				case <-hdone:
+				case <-time.After(200 * time.Millisecond):
+					sr.Note = "handler still running"
+				}
 			}
+			// a tunnel that opens late (nothing the recorder saw announced it) is attributed to this connection's last send
+			if t := newTunnel(0); t >= 0 {
+				sr.Tunnel = t
+			}
+			accepted = false
+			newConn()
 		default:
 			sr.Note = "unknown op"
 		}
